@@ -87,7 +87,7 @@ SPECS = ["", "~", "P", "~P", "C", "~C"]
 def tasks(tier, seed):
     t = [{"sub": "history", "shard": i} for i in range(6)]
     t += [{"sub": "default", "shard": i} for i in range(2)]
-    t += [{"sub": "isolation", "shard": 0}]
+    t += [{"sub": "isolation", "shard": 0}, {"sub": "xcache", "shard": 0}]
     return t
 
 
@@ -479,7 +479,8 @@ def case_default(case, col=None):
                 twin = mk_twin()
                 continue
             q = op[1:]
-            a, b = ask(subject, q, None), ask(twin, q)
+            # (every question goes to an untouched copy of the fresh twin: the twin must not share the subject's query history)
+            a, b = ask(subject, q, None), ask(copy.deepcopy(twin), q)
             if a != b:
                 klass = "default_registry:" + classify(q, state, a, b)
                 if klass.replace("default_registry:", "") in known:
@@ -500,7 +501,13 @@ def run_default(task, tier, seed, col):
                       st.tuples(st.just("Q"), st.just("compact"), st.sampled_from([1500, Fraction(1, 2000)]), u), st.tuples(st.just("Q"), st.just("dim"), u))
     change = st.one_of(st.tuples(st.just("S"), st.just("enable"), st.sampled_from(["sp", "boltzmann", "energy", "textile"])), st.tuples(st.just("S"), st.just("disable")),
                        st.tuples(st.just("S"), st.just("system"), st.sampled_from(["mks", "cgs", "imperial", "US", None, "SI", "atomic"])))
-    strat = st.lists(st.one_of(query, query, query, change), min_size=4, max_size=20).map(lambda ops: {"ops": [list(o) for o in ops]})
+    free = st.lists(st.one_of(query, query, query, change), min_size=4, max_size=20)
+    # motif: a prefixed unit is spelled out in full, then the short spelling that its prefix symbol + unit symbol would collide with is used
+    # (kilo+tonne / kt = knot, milli+inch / min = minute, centi+day / cd = candela, peta+year / Pa = pascal, femto+tonne / ft = foot)
+    COLL = [("kilotonne", "kt", "knot"), ("milliinch", "min", "minute"), ("centiday", "cd", "candela"), ("petayear", "Pa", "pascal"), ("femtotonne", "ft", "foot"), ("nanomile", "nmi", "nautical_mile")]
+    coll = st.sampled_from(COLL).map(lambda t: [("Q", "root", t[0]), ("Q", "format", 3, t[0], "~"), ("Q", "root", t[1]), ("Q", "convert", 2, t[1], t[2]), ("Q", "dim", t[1]), ("Q", "parse_expr", "3 " + t[1]),
+                                                 ("Q", "format", 3, t[2], "~")])
+    strat = st.one_of(free, free, coll).map(lambda ops: {"ops": [list(o) for o in ops]})
     hyp_search(col, strat, lambda c: case_default(c, col), max_examples=25 if tier == "quick" else 600, seed=seed * 223 + task["shard"], shrink_budget_s=90)
 
 
@@ -543,9 +550,23 @@ def run_isolation(task, tier, seed, col):
     hyp_search(col, strat, lambda c: case_isolation(c, col), max_examples=60 if tier == "quick" else 1000, seed=seed * 227)
 
 
+def run_xcache(task, tier, seed, col):
+    """the on-disk cache is a cache too: registries that read a cache folder written by another interpreter run answer like one without"""
+    from .c10 import case_xcache
+
+    for src in ("bundled", "generated"):
+        col.run_case(lambda c: case_xcache(c, col), {"source": src, "units": ["meter", "gram", "hour", "watt", "degree", "byte"], "hashseeds": [5, 2 + seed % 7, 13]})
+
+
 def run_task(task, tier, seed, col):
+    if task["sub"] == "xcache":
+        return run_xcache(task, tier, seed, col)
     {"history": run_history_task, "default": run_default, "isolation": run_isolation}[task["sub"]](task, tier, seed, col)
 
 
 def replay(sub, case):
+    if sub == "xcache":
+        from .c10 import case_xcache
+
+        return case_xcache(case)
     return {"history": case_history, "default": case_default, "isolation": case_isolation}[sub](case)
